@@ -341,6 +341,54 @@ def specs():
 # catalogued (so that they are not "uncatalogued") but never called
 NOT_CALLED = {"Epoch.utc2local": "reads the wall clock and the local time zone"}
 
+# Dense sweeps of one scalar parameter through its documented domain (all other parameters at their base
+# value): (parameter index, low, high, step).  Piecewise definitions (polynomial segments, calendar rules,
+# table lookups) are decided by comparisons on these parameters; "int, float" parameters get fractional
+# steps so that values *between* the integers are tried too.
+DENSE = {
+    "base.get_ordinal_suffix": [(0, 0, 130, 1)],
+    "base.iint": [(0, -10.0, 10.0, 0.25)],
+    "Angle.reduce_deg": [(0, -1080.0, 1080.0, 0.5)],
+    "Angle.deg2dms": [(0, -400.0, 400.0, 0.125)],
+    "Epoch.is_julian": [(0, 1570, 1595, 1), (1, 1, 12, 1), (2, 1, 31, 1)],
+    "Epoch.is_leap": [(0, -4712, 6000, 1)],
+    "Epoch.get_doy": [(0, -4712, 6000, 1), (1, 1, 12, 1), (2, 1.0, 28.75, 0.25)],
+    "Epoch.doy2date": [(0, -4712, 6000, 1), (1, 1.0, 365.75, 0.25)],
+    "Epoch.leap_seconds": [(0, 1900, 2200, 1), (1, 1, 12, 1)],
+    "Epoch.easter": [(0, -4712, 10000, 1)],
+    "Epoch.jewish_pesach": [(0, 1, 3000, 1)],
+    "Epoch.moslem2gregorian": [(0, 1, 2500, 1), (1, 1, 12, 1), (2, 1, 29, 1)],
+    "Epoch.gregorian2moslem": [(0, 623, 3000, 1), (1, 1, 12, 1), (2, 1, 28, 1)],
+    "Epoch.tt2ut": [(0, -2000.0, 3000.0, 0.25), (1, 1.0, 12.0, 0.5)],
+    "Coordinates.kepler_equation": [(0, 0.0, 0.995, 0.005), (1, -720.0, 720.0, 1.0)],
+    "Coordinates.velocity": [(0, 0.5, 35.0, 0.5)],
+    "Coordinates.velocity_perihelion": [(0, 0.0, 0.99, 0.01)],
+    "Coordinates.velocity_aphelion": [(0, 0.0, 0.99, 0.01)],
+    "Coordinates.length_orbit": [(0, 0.0, 0.99, 0.01)],
+    "Coordinates.refraction_apparent2true": [(0, 0.0, 90.0, 0.25)],
+    "Coordinates.refraction_true2apparent": [(0, 0.0, 90.0, 0.25)],
+    "Sun.beginning_synodic_rotation": [(0, 1, 2500, 1)],
+    "Sun.get_equinox_solstice": [(0, -1000, 3000, 40)],
+    "Earth.rho": [(0, -90.0, 90.0, 0.5)],
+    "Earth.rho_sinphi": [(0, -90.0, 90.0, 0.5), (1, -500.0, 9000.0, 250.0)],
+    "Earth.rho_cosphi": [(0, -90.0, 90.0, 0.5), (1, -500.0, 9000.0, 250.0)],
+    "Earth.rp": [(0, -90.0, 90.0, 0.5)],
+    "Earth.rm": [(0, -90.0, 90.0, 0.5)],
+    "Earth.linear_velocity": [(0, -90.0, 90.0, 0.5)],
+}
+
+
+def dense_values(lo, hi, step):
+    n = int(round((hi - lo) / step))
+    vals = []
+    for k in range(n + 1):
+        v = lo + k * step
+        if isinstance(lo, int) and isinstance(step, int):
+            v = int(v)
+        vals.append(v)
+    return vals
+
+
 ILL = {
     "num": [None, "x", 1j, [1.0]],
     "angle": [None, "x", 1j, [1.0]],
